@@ -25,8 +25,8 @@ namespace {
 const double EPS = 2.220446049250313e-16;
 const int PMAX = VNADATA_MAX_PRECISION;
 // calibrated constants (see notes/agent-files.md): observed maxima are tracked as *_ratio
-const double C_CONV = 8192;    // conversion noise: C_CONV * eps * (|y| + element-wise sensitivity)
-const double C_FIELD = 16;     // rounding of a derived field (abs, arg, log10, RC/RL views) in double
+const double C_CONV = 32768;   // conversion noise: C_CONV * eps * (|y| + element-wise sensitivity)
+const double C_FIELD = 256;    // rounding of a derived field (abs, arg, log10, RC/RL views) in double
 const double C_LOAD = 256;     // loader decode (polar, dB, RC/RL, TS1 un-normalisation)
 const long double DB_ABS = 8.685889638065037L;   // d(20 log10 m) = 8.69 dm/m: absolute rounding floor of a dB field
 const long double ILL = 1e-9L; // conversion noise above ILL * |value|: value numerically undetermined, not compared
@@ -183,7 +183,8 @@ struct H {
             for (auto &m : M) m = lo + (long long)(c.unit() * (double)(hi - lo + 1));
             std::sort(M.begin(), M.end());
             for (int i = 0; i < F; i++) { if (M[i] > hi) M[i] = hi; if (i && M[i] <= M[i - 1]) M[i] = M[i - 1] + 1; }
-            if (M[F - 1] > hi) { long long over = M[F - 1] - hi; for (auto &m : M) m -= over; }
+            if (M[F - 1] > hi) M[F - 1] = hi;
+            for (int i = F - 2; i >= 0; i--) if (M[i] >= M[i + 1]) M[i] = M[i + 1] - 1;        // hi - lo >= 8 >= F - 1: stays >= lo
             int dec = 0;
             for (int i = 0; i < F; i++) {
                 if (i && c.chance(1, 4)) dec++;                                   // jump a decade
